@@ -13,8 +13,21 @@ from collections import defaultdict
 
 SIZE_METHODS = {"size", "empty", "length"}
 OUTPUT_ITERATOR_RESULT = {"std::copy": "last", "std::copy_n": "last", "std::copy_backward": "last", "std::move": "last",
-                          "std::move_backward": "last", "std::transform": "last", "std::fill_n": "first", "std::copy_if": "last",
-                          "std::partial_sum": "last", "std::adjacent_difference": "last"}
+                          "std::move_backward": "last", "std::transform": "before_op", "std::fill_n": "first", "std::copy_if": "before_op",
+                          "std::partial_sum": "third", "std::adjacent_difference": "third"}
+def output_arg(qn, args):
+    """the destination iterator of a standard algorithm call"""
+    how = OUTPUT_ITERATOR_RESULT[qn]
+    if how == "first" or not args:
+        return args[0]
+    if how == "before_op":
+        # transform(first, last, d_first, op) / transform(first1, last1, first2, d_first, op) / copy_if(first, last, d_first, pred)
+        return args[-2] if len(args) >= 4 else args[-1]
+    if how == "third":
+        return args[2] if len(args) >= 3 else args[-1]
+    return args[-1]
+
+
 # non-const members that only hand out a reference / pointer / view: writes through the result are seen at the
 # assignment, the call itself changes nothing
 ACCESS_METHODS = {"operator[]", "operator()", "data", "begin", "end", "at", "front", "back", "operator*", "operator->",
@@ -202,7 +215,7 @@ class Flow:
             args = n.call_args()
             if qn in OUTPUT_ITERATOR_RESULT and args:
                 # std::copy & co. return an iterator into their *destination*
-                return self.root(args[-1] if OUTPUT_ITERATOR_RESULT[qn] == "last" else args[0])
+                return self.root(output_arg(qn, args))
             if n.tc == "ptr" or is_alias_type(n.type, n.tc) or n.get("lv"):
                 for a in args:
                     a0 = a.strip()
@@ -369,7 +382,7 @@ class Flow:
                             targets.append(a)
                     wq = ce.get("qn", "")
                     if wq in OUTPUT_ITERATOR_RESULT and args:
-                        targets.append(args[-1] if OUTPUT_ITERATOR_RESULT[wq] == "last" else args[0])
+                        targets.append(output_arg(wq, args))
                     elif wq in ("std::fill", "std::iota", "std::generate", "std::reverse", "std::sort", "std::rotate") and args:
                         targets.append(args[0])
                     if (obj is not None and "cls" in ce and not ce.get("const") and n.k != "CXXConstructExpr"
@@ -471,7 +484,7 @@ def _lvalue_locals(t, depth=0):
         qn = (t.callee or {}).get("qn", "")
         args = t.call_args()
         if qn in OUTPUT_ITERATOR_RESULT and args:
-            return _lvalue_locals(args[-1] if OUTPUT_ITERATOR_RESULT[qn] == "last" else args[0], depth + 1)
+            return _lvalue_locals(output_arg(qn, args), depth + 1)
         for a in args:
             out += _lvalue_locals(a, depth + 1)
         return out
